@@ -293,3 +293,16 @@ package mail
 //@   ensures[C02:id] result == c
 //@ func mail.Charset.String
 //@   ensures[C02:id] result == c
+
+// ---------------------------------------------------------------------------
+// C18  Line discipline of the base64 line breaker (ghost col / maxcol / bare on the output sink)
+//
+//@ pred lbinv(l *mail.base64LineBreaker) = l != nil && 0 <= l.used && l.used <= 76 && (forall i :: 0 <= i && i < l.used ==> l.line[i] != 13 && l.line[i] != 10)
+//@ pred lbout(w io.Writer) = w.col == 0 && w.maxcol <= 76 && !w.bare
+//@ func mail.base64LineBreaker.Write (data) (numBytes, err)
+//@   requires[C18:inv] lbinv(l) && bnocrlf(data) && (l.out != nil ==> lbout(l.out))
+//@   ensures[C18:inv] lbinv(l) && l.out == old(l.out)
+//@   ensures[C18:line-length] l.out != nil && err == nil ==> l.out.maxcol <= 76 && !l.out.bare && l.out.col == 0
+//@ func mail.base64LineBreaker.Close () (err)
+//@   requires[C18:inv] lbinv(l) && l.out != nil && lbout(l.out)
+//@   ensures[C18:line-length] err == nil ==> l.out.maxcol <= 76 && !l.out.bare && l.out.col == 0
